@@ -95,7 +95,7 @@ PROPERTIES = {
     },
     "C06": {
         "level": "proof",
-        "verus_units": ["round@*"],
+        "verus_units": ["round@*", "nofrac"],
         "kani_thorough": ["round8::i8f::rounding_all_layouts", "round8::u8f::rounding_all_layouts"],
         "explanation": "INT_MASK/FRAC_MASK/INT_LSB/FRAC_MSB, int, frac, round_to_zero and the 4 x 5 rounding forms verified (Verus) for all ten "
                        "families with a symbolic Frac against floor/ceil/round/ties-to-even/to-zero over unbounded integers",
@@ -147,9 +147,9 @@ PROPERTIES = {
     },
     "C09": {
         "level": "other",
-        "kani": ["display::display_default", "display::display_precision", "display::display_sign",
-                 "display::display_plus", "display::display_zero_pad", "display::display_width", "display::display_lower_hex",
-                 "display::display_upper_hex", "display::display_binary", "display::display_octal", "display::display_alt_hex"],
+        "kani": ["display::display_default", "display::display_precision", "display::display_plus", "display::display_lower_hex", "display::display_binary"],
+        "kani_thorough": ["display::display_sign", "display::display_zero_pad", "display::display_width", "display::display_upper_hex",
+                          "display::display_octal", "display::display_alt_hex"],
         "explanation": "BOUNDED: the real fmt_dec / fmt_radix2 (run-time frac_nbits through the hook new-types) on every 8-bit value and all nine "
                        "layouts: `{}` is the correct rounding at the digits shown and lies within half an ulp (round trip); `{:.p}` for p <= 9 is the "
                        "exactly rounded expansion; sign / + / zero padding / width only add prefix and padding; "
@@ -158,7 +158,7 @@ PROPERTIES = {
     },
     "C12": {
         "level": "proof",
-        "verus_units": ["transc"],
+        "verus_units": ["transc", "fracops", "nofrac"],
         "kani": ["transc::exp_i9f23", "transc::sin_i9f23", "transc::cos_i9f23", "transc::cos_i32f32"],
         "kani_thorough": ["transc::sqrt_i9f23", "transc::log2_i9f23", "transc::ln_i9f23", "transc::sqrt_u9f23", "transc::tan_i9f23",
                           "transc::sin_i32f32", "transc::sin_i64f64", "transc::exp_i32f32"],
